@@ -575,11 +575,10 @@ def compileExperiment (cli : Cli) (root : Doc) (dataFile : Doc) (exp : Doc) (d :
         | .str _ => pure true
         | _ => throw .typeError        -- None + ".profiles"
     | _ => pure (if truthy ownFile then true else truthy dataFile)
-  -- the name that is opened (persistence.py:226-233 `_read_start_time`), unless it is the
-  -- derived `….profiles` name
+  -- the name that is opened (persistence.py `_read_start_time`; with -c `_discard_old_data`)
   let opened : Option String :=
     match (if truthy ownFile then ownFile else dataFile), action with
-    | .str s, .str "profile" => if truthy ownFile then some s else none
+    | .str s, .str "profile" => if truthy ownFile then some s else some (s ++ ".profiles")
     | .str s, _ => some s
     | _, _ => none
   let d1 ← compileDetails exp d
